@@ -176,6 +176,11 @@ def step (st : DState) (line : String) : DState × String :=
         | .ok .none => (st, "ok\t-\t" ++ tail)
         | .ok (.month m) => (st, s!"ok\tMo:{m}\t" ++ tail)
         | .ok (.item i) => (st, "ok\t" ++ encItem i ++ "\t" ++ hexOfString (printItem st.cfg lang st.now i) ++ tail)
+  | ["constdate", lang, word] =>
+    -- the date a constant word (`today`, …) denotes in that language at the current `now`
+    (st, match (constantOf st.cfg lang (stringOfHex word)).bind (constDate st.now) with
+      | some d => s!"{d.y}-{d.m}-{d.d}"
+      | none => "none")
   | ["f64parse", t] =>
     (st, match parseF64 (unescape t) with | some v => hexOfFloat v | none => "err")
   | ["f64short", h] => (st, shortStr (floatOfHex h))
